@@ -299,6 +299,21 @@ def e2e_elemwise(chunkss, light=False):
                 _same("broadcast_arrays", g, w, info)
         if light:
             return
+        # a one-element ndarray of HIGHER rank than the dask operand broadcasts like any other array (it is not a scalar)
+        one = np.array([5]).reshape((1,) * (dx.ndim + 1))
+        _same("x + 1-element array of higher rank", dx + one, x + one, info)
+        _same("1-element array of higher rank - x", one - dx, one - x, info)
+        # integer divmod / floor_divide / remainder with zeros among the divisors (NumPy: x // 0 == 0 and x % 0 == 0, with a RuntimeWarning)
+        with np.errstate(all="ignore"):
+            yi, dyi = (y * 2).astype("i8") - 2, (dy * 2).astype("i8") - 2      # integer divisors, some of them 0
+            q, r_ = np.divmod(x, yi)
+            dq, dr = np.divmod(dx, dyi)
+            _same("divmod quotient", dq, q, info)
+            _same("divmod remainder", dr, r_, info)
+            _same("remainder", dx % dyi, x % yi, info)
+            finf = np.where(yi == 0, np.inf, yi.astype("f8"))
+            dfinf = da.where(dyi == 0, np.inf, dyi.astype("f8"))
+            _same("divmod remainder, infinite divisors", np.divmod(dx, dfinf)[1], np.divmod(x, finf)[1], info)
         _same("np.maximum", np.maximum(dx, dy), np.maximum(x, y), info)
         _same("da.add(numpy operand)", da.add(dx, y), np.add(x, y), info)
         _same("x+y astype(i2)", (dx + dy).astype("i2"), (x + y).astype("i2"), info)
